@@ -88,3 +88,21 @@ package lossless
 //@   ensures result == nil ==> len(data) >= 5 && data[0] == 0x2f
 //@   ensures result == nil ==> dec.Width == 1 + int(le32d(data, 1) & 0x3fff) && dec.Height == 1 + int((le32d(data, 1) >> 14) & 0x3fff)
 //@   ensures result == nil ==> (dec.HasAlpha <==> (le32d(data, 1) >> 28) & 1 != 0) && le32d(data, 1) >> 29 == 0
+//
+// ---- C01 / C03 / C07: the inverse transform chain must not unpack a packed palette image in place ----
+//
+// colorIndexInverseTransform with Bits > 0 writes 2, 4 or 8 output pixels per
+// packed input pixel, i.e. it writes ahead of its reads: input and output
+// must not be the same buffer. applyInverseTransforms runs every inverse after
+// the first one in place (rows == out), so a packing palette transform that is
+// not the last one read needs its packed pixels moved out of the way.
+//@ func (dec *Decoder) applyInverseTransforms
+//@   property C01 C03 C07 C05
+//@   requires dec != nil && 0 <= dec.nextTransform && dec.nextTransform <= 4
+//@   requires dec.transformBuf == nil || base(dec.transformBuf) != base(pixels)
+//@   modifies *
+//@   abstract inverseTransform
+//@   loop 0: invariant -1 <= n && n <= dec.nextTransform - 1 && dec.nextTransform <= 4
+//@   loop 0: invariant base(out) != base(pixels) && out != nil
+//@   loop 0: invariant n == dec.nextTransform - 1 ==> rows == pixels
+//@   callsite inverseTransform: assert (t.Type == ColorIndexingTransform && t.Bits > 0) ==> base(arg3) != base(arg4)
